@@ -1,98 +1,69 @@
 (* Rename -- the RenameHandler of mos/src/lsp/rename.rs.
 
-   The handler reads the text of every usage span back from the source (`source_slice`) and turns it into an
-   IdentifierPath; here that is the function `slice : Span -> path` (for an ordinary usage one identifier; for the
-   argument of a specific import the whole `x as y`, which IdentifierPath::from makes ONE identifier; for a `super`
-   usage the identifier super).  The HashMaps of the handler are keyed by usage; the loop that renames "all other
-   paths by which the symbol may be reached" only relabels edges to the same new name, so its order is irrelevant.
+   The handler reads the text of every definition site / usage span back from the source and takes the names in it
+   (`names_in`): one identifier, or two for the argument `x as y` of a specific import, each with its offset in the
+   span.  Here that is the function `names : Span -> list (nat * ident)`.  It determines the NAME UNDER THE CURSOR and
+   edits exactly the places where the symbol found at the position is written with that name.  It does not touch
+   the symbol table.
 
    Rust names are kept.  No proofs in this file. *)
 From Coq Require Import List NArith Arith Bool.
 Import ListNotations.
 From Mos Require Import model.SymGraph model.Analysis.
 
-Record TextEdit := mkEdit { ed_span : Span; ed_text : path }.   (* new_text = the path's Display: identifiers joined by '.' *)
+Record TextEdit := mkEdit { ed_span : Span; ed_text : ident }.
 
-(* "First, determine all the query steps for every usage": (usage, steps, old path); None = out of fuel *)
-Fixpoint usage_steps (fuel : nat) (g : graph) (slice : Span -> path) (us : list DefinitionLocation)
-  : option (list (DefinitionLocation * list QueryTraversalStep * path)) :=
-  match us with
-  | [] => Some []
-  | dl :: rest =>
-      let p := slice (dl_span dl) in
-      match query_traversal_steps fuel g (parent_scope dl) p, usage_steps fuel g slice rest with
-      | Some steps, Some r => Some ((dl, steps, p) :: r)
-      | _, _ => None
-      end
-  end.
-
-(* "rename it across all other paths by which it may be reached" *)
-Fixpoint rename_usages (g : graph) (l : list (DefinitionLocation * list QueryTraversalStep * path)) (new_id : ident) : graph :=
-  match l with
-  | [] => g
-  | (dl, steps, _) :: rest =>
-      let g' := match last_symbol steps with
-                | Some nx => rename g (parent_scope dl) nx new_id
-                | None => g
-                end in
-      rename_usages g' rest new_id
-  end.
-
-(* "reconstruct the identifiers": the new text of one usage, if query_steps_to_path yields one *)
-Definition new_path (g : graph) (e : DefinitionLocation * list QueryTraversalStep * path) : option path :=
-  let '(dl, steps, old_path) := e in
-  query_steps_to_path g (parent_scope dl) steps (contains_super old_path).
-
-Definition is_super_slice (slice : Span -> path) (dl : DefinitionLocation) : bool :=
-  match slice (dl_span dl) with
-  | [id] => is_super id
-  | _ => false
-  end.
-
-(* the text at a definition site is an identifier ([A-Za-z0-9_]+; programs are ASCII): the sites of `-` and `+` are braces *)
+(* an identifier: [A-Za-z0-9_]+ (programs are ASCII): the sites of `-` and `+` are braces *)
 Definition is_ident_char (c : N) : bool :=
   (N.leb 48 c && N.leb c 57) || (N.leb 65 c && N.leb c 90) || (N.leb 97 c && N.leb c 122) || N.eqb c 95.
 Definition ident_ok (id : ident) : bool :=
   match id with [] => false | _ => forallb is_ident_char id end.
-Definition def_site_is_identifier (slice : Span -> path) (loc : DefinitionLocation) : bool :=
-  match slice (dl_span loc) with
-  | [id] => ident_ok id
-  | _ => false
+
+(* the name of `dl` that the column points at (both ends inclusive) *)
+Definition name_at (names : Span -> list (nat * ident)) (dl : DefinitionLocation) (col : nat) : option ident :=
+  option_map snd
+    (find (fun e => Nat.leb (s_c0 (dl_span dl) + fst e) col && Nat.leb col (s_c0 (dl_span dl) + fst e + List.length (snd e)))
+          (names (dl_span dl))).
+
+Fixpoint find_map {A B : Type} (f : A -> option B) (l : list A) : option B :=
+  match l with
+  | [] => None
+  | x :: rest => match f x with Some y => Some y | None => find_map f rest end
   end.
+
+Definition name_under_cursor (names : Span -> list (nat * ident)) (d : Def) (file line col : nat) : option ident :=
+  find_map (fun dl => name_at names dl col)
+           (filter (fun dl => span_contains (dl_span dl) file line col) (definition_and_usages d)).
+
+(* the edits of one place: every name in it that is the old name *)
+Definition edits_of (names : Span -> list (nat * ident)) (old new : ident) (dl : DefinitionLocation) : list TextEdit :=
+  map (fun e => mkEdit (subspan (dl_span dl) (fst e) (fst e + List.length (snd e))) new)
+      (filter (fun e => ident_eqb (snd e) old) (names (dl_span dl))).
 
 Inductive RenameResult :=
 | RenNone                                   (* the request is answered with null *)
-| RenEdits (g' : graph) (edits : list TextEdit)
-| RenOutOfFuel.
+| RenEdits (old_name : ident) (edits : list TextEdit).
 
-Definition rename_symbol (fuel : nat) (g : graph) (slice : Span -> path) (def_symbol_nx : node) (d : Def) (new_name : ident)
+Definition rename_symbol (names : Span -> list (nat * ident)) (d : Def) (file line col : nat) (new_name : ident)
   : RenameResult :=
   match location d with
   | None => RenNone
-  | Some loc =>
-      if negb (def_site_is_identifier slice loc) then RenNone else
-      match usage_steps fuel g slice (usages d) with
-      | None => RenOutOfFuel
-      | Some steps =>
-          let g1 := rename g (parent_scope loc) def_symbol_nx new_name in
-          let g2 := rename_usages g1 steps new_name in
-          let text_of (dl : DefinitionLocation) : path :=
-            match find (fun e => loc_eqb (fst (fst e)) dl) steps with
-            | Some e => match new_path g2 e with Some p => p | None => [new_name] end
-            | None => [new_name]
-            end in
-          RenEdits g2 (map (fun dl => mkEdit (dl_span dl) (text_of dl))
-                           (filter (fun dl => negb (is_super_slice slice dl)) (definition_and_usages d)))
+  | Some _ =>
+      match name_under_cursor names d file line col with
+      | Some old => if negb (is_super old) && ident_ok old
+                    then RenEdits old (flat_map (edits_of names old new_name) (definition_and_usages d))
+                    else RenNone
+      | None => RenNone
       end
   end.
 
 (* RenameHandler::handle: the first definition found at the position *)
-Definition rename_handler (fuel : nat) (g : graph) (a : Analysis) (slice : Span -> path)
+Definition rename_handler (a : Analysis) (names : Span -> list (nat * ident))
            (file line col : nat) (new_name : ident) : RenameResult :=
   match find_ a file line col with
   | [] => RenNone
   | (DtFilename _, _) :: _ => RenNone
-  | (DtSymbol nx, d) :: _ => rename_symbol fuel g slice nx d new_name
+  | (_, d) :: _ => rename_symbol names d file line col new_name
   end.
 
 (* PrepareRenameRequestHandler (the part that decides): an identifier other than `super` on which something is found *)
